@@ -645,6 +645,59 @@ func checkC10(c *core.Ctx) {
 		}
 	})
 
+	// chord symbols of a user dictionary are free text too: symbols with line breaks, leading tabs or blanks, `<<`
+	oddSymbols := []string{"\n7", "\tsus\n4", "a\nb", "\n", "<<", " m7", "m7 ", "null", "~", "1e3", "7\n", "\u2028x\ny", "- x", "k: v"}
+	c.Stream("oddsymbols", len(oddSymbols), func(i int, r *rand.Rand) {
+		sym := oddSymbols[i]
+		dict := c.Scratch.File("odd-chord.yml", chordsYAML([]userChord{{Name: "Zodd", Display: sym, Attrs: []string{"Perfect1", "Major3", "Perfect5", "Major7"}}}))
+		p := model.Piece{Inst: []model.Instance{
+			{Chord: &model.ChordSpec{Deg: theory.Interval{N: 1, Q: theory.Perfect}, Symbol: sym}, Values: one()},
+			{Chord: &model.ChordSpec{Deg: theory.Interval{N: 5, Q: theory.Perfect}, Symbol: "7"}, Values: one()},
+			{Chord: &model.ChordSpec{Deg: theory.Interval{N: 4, Q: theory.Perfect}, Symbol: sym}, Values: one()},
+		}}
+		doc := p.YAML(model.YAMLStyle{})
+		direct := run(c, doc, "write", "event", "--chord", dict)
+		conv := run(c, doc, "write", "conv", "-c", "cmt", "--chord", dict)
+		c.Eval(2)
+		if infra(c, direct) || infra(c, conv) {
+			return
+		}
+		det := map[string]any{"symbol": sym, "direct": obs(direct), "conv": obs(conv)}
+		if a := abnormal(direct); a != "" {
+			c.Violate("oddsymbols", i, "oddsymbols:abnormal", "crd write event "+a, det)
+			return
+		}
+		if a := abnormal(conv); a != "" {
+			c.Violate("oddsymbols", i, "oddsymbols:abnormal", "crd write conv "+a, det)
+			return
+		}
+		if !direct.OK() || !conv.OK() {
+			if direct.OK() != conv.OK() {
+				c.Violate("oddsymbols", i, "oddsymbols:accept", fmt.Sprintf("a document using the user chord symbol %q: write event ok=%v, write conv ok=%v", sym, direct.OK(), conv.OK()), det)
+			}
+			return
+		}
+		again := run(c, conv.Stdout, "write", "event", "--chord", dict)
+		c.Eval(1)
+		if infra(c, again) {
+			return
+		}
+		notes := func(b []byte) string {
+			var l []string
+			for _, ln := range strings.Split(string(b), "\n") {
+				if strings.Contains(ln, "NoteOn") || strings.Contains(ln, "NoteOff") {
+					l = append(l, ln)
+				}
+			}
+			return strings.Join(l, "\n")
+		}
+		if !again.OK() || notes(again.Stdout) != notes(direct.Stdout) {
+			c.Violate("oddsymbols", i, "oddsymbols:roundtrip", fmt.Sprintf("user chord symbol %q: what write conv prints is refused or plays other notes than the document it was made from (ok=%v): %s", sym, again.OK(), firstLineDiff([]byte(notes(direct.Stdout)), []byte(notes(again.Stdout)))), mergeMaps(det, map[string]any{"again": obs(again)}))
+			return
+		}
+		c.Nontrivial("oddsymbol:" + sym)
+	})
+
 	c.Stream("scalars", 16, func(sh int, r *rand.Rand) { scalarShard(c, sh, r) })
 }
 
